@@ -205,8 +205,18 @@ func (fr *Frame) applyContract(cx *callCtx, con *Contract) []Term {
 	rs := cx.freshResults("r." + lastSeg(cx.name))
 	env.results = rs
 	env.st = cx.st
-	for _, c := range con.Ensures {
+	for k, c := range con.Ensures {
 		if t, ok := env.tryEvalBool(c.Expr); ok {
+			// a clause with a recorded finding is only known to hold outside the finding's region
+			for _, f := range con.Findings {
+				if f.Label == clauseID(c, k) {
+					if d, ok := env.tryEvalBool(f.Disc.Expr); ok {
+						t = implies(not(d), t)
+					} else {
+						t = "true"
+					}
+				}
+			}
 			vc.assumeIf(cx.st.pc, t)
 		} else {
 			// clauses about the callee's internal call history (beforecall/atcall/@pattern) mean nothing to a caller
